@@ -19,11 +19,11 @@ RULE = ("NP2.4 recordings whose first rows contain all 65536 int16 values (or al
         "full-scale/max-int pairs {0.5/8192, 0.62/2048, 0.6/512, 0.62/8192}; channel-to-shank assignments {default stripe, independent per "
         "channel, random runs, singletons} over 1..4 shank labels (non-contiguous label sets included); window sizes = multiples of 12 "
         "above the 576-sample overlap; lengths not aligned with the window; post_check/compress in {F,T}; reconstruction with compress in "
-        "{F,T}. Non-trivial: gain not a power of two or > 1 shank interleaved, and the all-values block present; distinct = distinct "
+        "{F,T}; in half of the cases a forced second pass on the same converter object (with / without init_params) precedes the judgement. Non-trivial: gain not a power of two or > 1 shank interleaved, and the all-values block present; distinct = distinct "
         "(gain, assignment mode, #shanks, window, ns, options)")
 ASSUMPTIONS = ["byte comparison uses harness code (numpy.fromfile / mtscomp), never the repository's reader",
                "metadata equality is judged on the parsed dictionaries (tilde prefixes are not part of a key)"]
-REQUIRED = {"shank_files_compared": 8, "reconstructions": 3, "meta_fields_compared": 100, "values_all_int16": 1}
+REQUIRED = {"shank_files_compared": 8, "reconstructions": 3, "meta_fields_compared": 100, "values_all_int16": 1, "second_passes": 4, "shank_files_opened": 8}
 CASE_TIMEOUT = 120.0
 MAX_PROCS = 12
 
@@ -60,8 +60,9 @@ def run_case(case):
     enc = str(rng.choice(["shank", "geom"]))
     b, rec = np2.build(rng, d, ns=ns, gain=gain, sites=sites, content=content, encoding=enc)
     raw = rec.raw
+    second = str(rng.choice(["", "", "overwrite", "init+overwrite"])) if not case.get("long") else ""
     label = (f"gain={gain[0]}/{gain[1]} mode={mode} shanks={sorted(set(sites[:, 0].tolist()))} window={window} ns={ns} {content} "
-             f"post_check={post_check} compress={compress} enc={enc}")
+             f"post_check={post_check} compress={compress} enc={enc}" + (f" second-pass={second}" if second else ""))
     allv = len(np.unique(raw[:, :384])) == 65536
     if allv:
         res.count("values_all_int16")
@@ -74,6 +75,12 @@ def run_case(case):
         if window is not None:
             conv.init_params(nwindow=window)
         status = conv.process()
+        if second:
+            # one converter object, a second forced pass (with or without init_params in between): judged on the files of the LAST pass
+            if second == "init+overwrite":
+                conv.init_params(nwindow=window) if window is not None else conv.init_params()
+            status2 = conv.process(overwrite=True)
+            res.check(status2 == 1, "split:second-pass-status", f"{label}: forced second pass on the same converter returned {status2}", counter="second_passes")
         conv.sr.close()
     except AssertionError as e:
         res.violation("split:post-check-assertion" + (":truncating-cast" if gain != (0.5, 8192) else ""),
@@ -112,6 +119,13 @@ def run_case(case):
             ms = spikeglx.read_meta_data(f.with_suffix(".meta"))
             res.check(int(ms["nSavedChans"]) == len(c) and int(ms["NP2.4_shank"]) == s and ms["snsApLfSy"][0] == len(c) - 1,
                       "split:shank-meta", f"{label}: shank {s} meta nSavedChans={ms.get('nSavedChans')} NP2.4_shank={ms.get('NP2.4_shank')}")
+            # the channel counts the file declares are the columns it holds: n-1 AP channels, no LF channel, one sync word
+            res.check([int(v) for v in ms["snsApLfSy"]] == [len(c) - 1, 0, 1] and [int(v) for v in ms["acqApLfSy"]] == [len(c) - 1, 0, 1],
+                      "split:shank-meta-counts", f"{label}: shank {s} ap meta declares snsApLfSy={ms.get('snsApLfSy')} acqApLfSy={ms.get('acqApLfSy')} for {len(c) - 1} AP channels + sync")
+            srs = spikeglx.Reader(f, sort=False)
+            res.check(srs.type == "ap" and srs.shape == exp.shape and srs.nsync == 1, "split:shank-reader", f"{label}: shank {s} file opens as type {srs.type} shape {srs.shape} "
+                      f"nsync {srs.nsync}, expected ap {exp.shape} 1", counter="shank_files_opened")
+            srs.close()
             # original channel list recorded in the shank meta
             groups = []
             for part in str(ms["snsSaveChanSubset_orig"]).split(","):
